@@ -63,8 +63,9 @@ class ServiceModel:
     """table: sid -> (profile, behaviour)"""
 
     def __init__(self, table: dict[int, tuple[tuple[int, ...], str]], sessions: tuple[int, ...] = SESS, s3: float | None = None,
-                 crash: tuple[int, float] | None = None) -> None:
+                 crash: tuple[int, float] | None = None, start: int = 1) -> None:
         self.table = table
+        self.start_session = start  # session a previous tester left the ECU in
         self.sessions = sessions
         self.s3 = s3  # the ECU falls back to the default session after s3 seconds without an answered request
         self.crash = crash  # (service id, seconds): probing that service makes the ECU reboot (down, then default session)
@@ -218,9 +219,12 @@ UNIVERSE = {
 class IdentModel:
     """pos: session -> set of (did, sub_function) answered positively for `service`"""
 
-    def __init__(self, service: int, pos: dict[int, frozenset[tuple[int, int]]], payload: bytes, other: int) -> None:
+    def __init__(self, service: int, pos: dict[int, frozenset[tuple[int, int]]], payload: bytes, other: int,
+                 jumps: dict[tuple[int, int], int] | None = None, start: int = 1) -> None:
         self.service = service
         self.pos = pos
+        self.jumps = jumps or {}  # (identifier, sub-function) whose positive answer moves the ECU into another session
+        self.start_session = start
         self.payload = payload
         self.other = other  # NRC for identifiers that are not positive
         self.sessions = SESS
@@ -251,13 +255,14 @@ class IdentModel:
         if key is None:
             return bytes([0x7F, sid, 0x13]), session
         if key in self.pos.get(session, frozenset()):
+            after = self.jumps.get(key, session)
             if sid == 0x22:
-                return bytes([0x62]) + req[1:3] + b"\x5a", session
+                return bytes([0x62]) + req[1:3] + b"\x5a", after
             if sid == 0x2E:
-                return bytes([0x6E]) + req[1:3], session
+                return bytes([0x6E]) + req[1:3], after
             if sid == 0x31:
-                return bytes([0x71]) + req[1:4], session
-            return bytes([0x67, req[1]]) + (b"\xde\xad" if req[1] % 2 else b""), session
+                return bytes([0x71]) + req[1:4], after
+            return bytes([0x67, req[1]]) + (b"\xde\xad" if req[1] % 2 else b""), after
         return bytes([0x7F, sid, self.other]), session
 
 
@@ -356,7 +361,7 @@ def run_item(item: dict[str, Any]) -> Result:
         table = {int(k): (tuple(val[0]), val[1]) for k, val in item["table"].items()}
         cfg = dict(item["cfg"])
         mopts = cfg.pop("_model", {})
-        model: Any = ServiceModel(table, s3=mopts.get("s3"), crash=tuple(mopts["crash"]) if mopts.get("crash") else None)
+        model: Any = ServiceModel(table, s3=mopts.get("s3"), crash=tuple(mopts["crash"]) if mopts.get("crash") else None, start=mopts.get("start", 1))
         kw: dict[str, Any] = {}
         if cfg.get("sessions") is not None:
             kw["sessions"] = list(cfg["sessions"])
@@ -376,7 +381,9 @@ def run_item(item: dict[str, Any]) -> Result:
             res.sample({"kind": "services", "table": {hex(k): val for k, val in table.items()}, "cfg": cfg, "result": [[k, hex(s)] for k, s in box["scanner"].result], "exit": box.get("exit"), "requests": len(box["log"])}, cap=2)
     else:
         pos = {int(s): frozenset(tuple(x) for x in p) for s, p in item["pos"].items()}
-        model = IdentModel(item["service"], pos, bytes.fromhex(item["cfg"].get("payload") or ""), item["other"])
+        mo = item["cfg"].get("_model", {})
+        jumps = {(int(a), int(b)): int(c) for a, b, c in mo.get("jumps", [])}
+        model = IdentModel(item["service"], pos, bytes.fromhex(item["cfg"].get("payload") or ""), item["other"], jumps, mo.get("start", 1))
         cfg = dict(item["cfg"])
         kw = {"service": item["service"], "start": cfg["start"], "end": cfg["end"]}
         if cfg.get("sessions") is not None:
@@ -418,6 +425,9 @@ SVC_CFGS = [
     {"sessions": [1, 2, 3], "skip": {2: [0x22, 0x9C, 0x9D, 0x9E, 0x9F, 0xA0], 3: None}},
     {"sessions": [3, 1], "check_session": True},
     {"sessions": [1, 2, 4], "reset": 1},
+    # a previous tester left the ECU in a non-default session
+    {"sessions": [1, 2, 3], "_model": {"start": 3}},
+    {"sessions": [1, 3], "check_session": True, "_model": {"start": 2}},
 ]
 
 
@@ -475,6 +485,11 @@ def items(tier: str, seed: int) -> list[Any]:
                 variants.append({"sessions": [2], "start": wins[0][0], "end": wins[0][1], "check_session": 1 if si % 2 else 3})
             if service in (0x2E, 0x31, 0x22) and (not quick or si % 3 == 0):
                 variants.append({"sessions": [1], "start": wins[0][0], "end": wins[0][1], "payload": "aa55"})
+            if sub and (not quick or si % 2 == 0):
+                # a positively answered request of the scan itself moves the ECU into another session; the scanner watches the session
+                (jd, jsf) = sorted(sub)[si % len(sub)]
+                variants.append({"sessions": [2, 1], "start": wins[0][0], "end": wins[0][1], "check_session": 1, "_model": {"jumps": [[jd, jsf, 1 if si % 3 else 3]]}})
+                variants.append({"sessions": [1, 2], "start": wins[0][0], "end": wins[0][1], "check_session": 1, "_model": {"jumps": [[jd, jsf, 3]], "start": 2}})
             for vi, cfg in enumerate(variants):
                 out.append({"kind": "identifiers", "service": service, "pos": pos, "other": [0x31, 0x12, 0x33, 0x11][si % 4], "cfg": cfg, "sample": si == 9 and vi == 0})
     return out
